@@ -812,12 +812,50 @@ struct LinkedBuf {  // a zero-terminated copy in its own heap block: exactly siz
   LinkedBuf(const LinkedBuf&) = delete;
 };
 
+#if ARDUINOJSON_ENABLE_ARDUINO_STREAM
+// an Arduino-style Printable that hands its text to Print::write(buffer, size) in blocks of `block` bytes (0 = byte-wise)
+struct NumPrintable : Printable {
+  std::string text;
+  size_t block;
+  NumPrintable(const std::string& t, size_t b) : text(t), block(b) {}
+  size_t printTo(Print& p) const override {
+    size_t n = 0;
+    if (!block) {
+      for (char c : text) n += p.write(uint8_t(c));
+      return n;
+    }
+    for (size_t i = 0; i < text.size(); i += block)
+      n += p.write(reinterpret_cast<const uint8_t*>(text.data() + i), std::min(block, text.size() - i));
+    return n;
+  }
+};
+static const int kStrKinds = 6;
+#else
+static const int kStrKinds = 2;
+#endif
+static const char* kStrKindName[] = {"linked", "copied", "String", "Printable-1block", "Printable-7byte-blocks", "Printable-bytewise"};
+
+// the entry points through which a numeric string reaches the document (the conversion rules may not depend on them)
+inline bool storeString(JsonDocument& doc, const std::string& s, const char* linked, int kind) {
+  switch (kind) {
+    case 0: return doc.set(linked);
+    case 1: return doc.set(s);
+#if ARDUINOJSON_ENABLE_ARDUINO_STREAM
+    case 2: return doc.set(::String(s.c_str()));
+    case 3: return doc.set(NumPrintable(s, s.size() + 1));
+    case 4: return doc.set(NumPrintable(s, 7));
+    case 5: return doc.set(NumPrintable(s, 0));
+#endif
+    default: return false;
+  }
+}
+
 template <class T>
 inline void strCase(Ctx& C, const std::string& s, const Val& v, bool isNumber, int kind, size_t pad) {
   Stats st;
   LinkedBuf buf(s, pad);
   JsonDocument doc;
-  bool ok = kind == 0 ? doc.set(static_cast<const char*>(buf.p)) : doc.set(s);
+  bool ok = storeString(doc, s, static_cast<const char*>(buf.p), kind);
   if (!ok) {
     C.fail("set", "doc.set(string) returned false");
     return;
@@ -845,11 +883,12 @@ inline void strLiteral(Ctx& C, const std::string& s, size_t pad) {
   bool isNumber = false;
   Val v = ofString(s, isNumber);
   std::string ab = abbreviate(s);
-  for (int kind = 0; kind < 2; kind++) {
+  for (int kind = 0; kind < kStrKinds; kind++) {
+    if (kind >= 2 && s.find('\0') != std::string::npos) continue;
     forEachTarget([&](auto t) {
       using T = typename decltype(t)::type;
       if (!C.take()) return;
-      C.begin("str:" + ab + (kind == 0 ? "|kind=linked->T=" : "|kind=copied->T=") + t.name);
+      C.begin("str:" + ab + "|kind=" + kStrKindName[kind] + "->T=" + t.name);
       strCase<T>(C, s, v, isNumber, kind, pad);
       C.end();
     });
@@ -901,9 +940,9 @@ inline void runStrings(Ctx& C, bool full) {
     }
   strLiteral(C, "0", 16);
   strLiteral(C, "-0", 16);
-  char nb[200];
-  snprintf(nb, sizeof nb, "numeric strings: %d families x 2 signs x %zu lengths (%s) x linked/copied x 14 targets; 2^k+-1 for k<=70; %zu non-numbers",
-           kFamilies, lengths.size(), full ? "every length 1..1300" : "length grid up to 1300", sizeof kNot / sizeof kNot[0]);
+  char nb[320];
+  snprintf(nb, sizeof nb, "numeric strings: %d families x 2 signs x %zu lengths (%s) x %d entry points (linked, copied%s) x 14 targets; 2^k+-1 for k<=70; %zu non-numbers",
+           kFamilies, lengths.size(), full ? "every length 1..1300" : "length grid up to 1300", kStrKinds, kStrKinds > 2 ? ", String, Printable in one block / 7-byte blocks / byte-wise" : "", sizeof kNot / sizeof kNot[0]);
   C.bound(nb);
 }
 
